@@ -615,7 +615,7 @@ class Node:
             if deep is None:
                 deep = True
             topnodes = child._root.children
-            if isinstance(before, (int, Node)) or before is True:
+            if before is not None and before is not False:
                 topnodes.reverse()
             for n in topnodes:
                 self.add_child(n, before=before, deep=deep)
@@ -651,6 +651,8 @@ class Node:
 
         if before is True:
             before = 0  # prepend
+        elif before is False:
+            before = None  # append
 
         children = self._children
         if children is None:
@@ -774,6 +776,8 @@ class Node:
 
         if before is True:
             before = 0  # prepend
+        elif before is False:
+            before = None  # append
 
         target_siblings = new_parent._children
         if target_siblings is None:
